@@ -73,10 +73,32 @@ func v1api(sk *capacity.SpaceKeeper) *api {
 		offered: func() error {
 			var ch pocutil.Hash
 			_, err := sk.GetProofs(context.Background(), engine.SFMining, ch, false)
+			// and the streaming form, with the caller giving up at a seeded moment while the keeper is still writing
+			n := atomic.AddInt64(&offeredCalls, 1)
+			ctx, cancel := context.WithCancel(context.Background())
+			rd, rerr := sk.GetProofsReader(ctx, engine.SFAll, ch, false)
+			if rerr != nil {
+				cancel()
+				return err
+			}
+			go func() {
+				for i := int64(0); i < n%97; i++ {
+					runtime.Gosched()
+				}
+				cancel()
+			}()
+			for {
+				if _, e := rd.Read(); e != nil {
+					break
+				}
+			}
+			cancel()
 			return err
 		},
 	}
 }
+
+var offeredCalls int64
 
 func v2api(sk *skchia.SpaceKeeper) *api {
 	return &api{
